@@ -908,6 +908,12 @@ impl Gen {
             }
             return;
         }
+        // a pool whose trading opens in the future: land the swap in the very second it opens (or one second either side)
+        if o.trade_enable_timestamp as i64 > now && (o.trade_enable_timestamp as i64 - now) < 1_000_000 && self.rng.chance(1, 2) {
+            self.ts_offset += o.trade_enable_timestamp as i64 - now + self.rng.range(-1, 1);
+            self.stats.hit("clock_jump_to_the_trade_enable_time");
+            return;
+        }
         let base = if self.rng.chance(1, 2) {
             o.v.last_reference_update_timestamp
         } else {
